@@ -35,10 +35,11 @@ type Ctx struct {
 	Assumptions []string
 	Trusted     []string
 
-	Findings   []Finding
-	violations int
-	knownSeen  map[string]bool
-	replayN    int
+	Findings       []Finding
+	violations     int
+	knownSeen      map[string]bool
+	replayN        int
+	driverReported bool
 }
 
 // ProofStatus is what bin/check established before the harness ran.
@@ -101,8 +102,9 @@ func (c *Ctx) Sample(s any) {
 // ---------------------------------------------------------------- findings
 
 // Finding is one line of /verif/known_findings.txt:
-//   known: property=C01 class=<class> <what fails>
-//   fixed: property=C17 <commit> <what failed>
+//
+//	known: property=C01 class=<class> <what fails>
+//	fixed: property=C17 <commit> <what failed>
 type Finding struct {
 	Fixed bool
 	Prop  string
@@ -213,7 +215,28 @@ func (m Mismatch) Replay() string {
 	return b.String()
 }
 
-func (c *Ctx) DriverPath() string { return filepath.Join(c.VerifDir, "lean/.lake/build/bin/drv") }
+// DriverExe is driverFor for harnesses that talk to the model driver themselves.
+func (c *Ctx) DriverExe(handler string) (string, error) { return c.driverFor(handler) }
+
+// driverFor maps a handler id (c01, c01s, c05p …) to its executable via lean/drvmap.txt and
+// checks that the executable was built from the current sources by this run's bin/build.
+func (c *Ctx) driverFor(handler string) (string, error) {
+	b, err := os.ReadFile(filepath.Join(c.VerifDir, "lean/drvmap.txt"))
+	if err != nil {
+		return "", err
+	}
+	for _, ln := range strings.Split(string(b), "\n") {
+		f := strings.Fields(ln)
+		if len(f) == 2 && f[0] == handler {
+			st, err := os.ReadFile(filepath.Join(c.VerifDir, ".build", f[1]+".status"))
+			if err != nil || strings.TrimSpace(string(st)) != "0" {
+				return "", fmt.Errorf("model driver %s (handler %s) does not build from the current sources", f[1], handler)
+			}
+			return filepath.Join(c.VerifDir, "lean/.lake/build/bin", f[1]), nil
+		}
+	}
+	return "", fmt.Errorf("no model driver registered for handler %s", handler)
+}
 
 // RunModel pipes the script through `drv <prop>` and returns the first mismatch of every
 // differing case.
@@ -221,7 +244,15 @@ func (c *Ctx) RunModel(handler string, s *Script) ([]Mismatch, error) {
 	if len(s.Lines) == 0 {
 		return nil, nil
 	}
-	cmd := exec.Command(c.DriverPath(), handler)
+	exe, derr := c.driverFor(handler)
+	if derr != nil {
+		if !c.driverReported {
+			c.driverReported = true
+			c.Violation("the model cannot be run, so the correspondence can no longer be checked: "+derr.Error(), "", false)
+		}
+		return nil, nil
+	}
+	cmd := exec.Command(exe, handler)
 	cmd.Stdin = strings.NewReader(strings.Join(s.Lines, "\n") + "\n")
 	var out, errb bytes.Buffer
 	cmd.Stdout = &out
